@@ -284,6 +284,8 @@ func c07Check(c c07Case) *evid.Fail {
 
 func useClass(spelling string) string {
 	switch {
+	case strings.HasPrefix(spelling, "refuse_"):
+		return "refused-by-backend"
 	case strings.HasPrefix(spelling, `"`) && spelling != strings.ToLower(spelling):
 		return "quoted-mixed-case"
 	case strings.HasPrefix(spelling, `"`):
@@ -313,7 +315,10 @@ func c07Gen(rt *rapid.T) c07Case {
 	}
 	spellings := func() string {
 		k := pool[rapid.IntRange(0, len(pool)-1).Draw(rt, "usek")]
-		switch rapid.IntRange(0, 5).Draw(rt, "spelling") {
+		switch rapid.IntRange(0, 6).Draw(rt, "spelling") {
+		case 6:
+			// the backend refuses the USE with an error other than "unknown keyspace"
+			return "refuse_" + rapid.SampledFrom([]string{"overloaded", "bootstrapping", "unauthorized"}).Draw(rt, "refusekind") + "_" + strings.ToLower(k)
 		case 0:
 			return strings.ToUpper(k)
 		case 1:
